@@ -122,7 +122,7 @@ func runC13(e *Env) error {
 	}
 	defer pool.Close()
 	cases := c13Cases(e)
-	e.Res.Rule = "(A) directory shapes x failing statement at every position x tx-mode {file, all, none} x files applied by an earlier `apply N` x txmode directives x count argument, real binary on SQLite: operation trace == Lean plan, final dump == model, independent oracles (all: dump before; file: clean run of the directory truncated before the failing file; none: successful prefix + error revision), then fix + re-hash + re-run == dump of a never-failing run; (B) --dry-run on fresh/initialised databases with/without --baseline: full dump unchanged; (C) schema apply plans failing midway: dump unchanged, --dry-run unchanged; non-trivial = a statement fails after at least one succeeded; distinct by case"
+	e.Res.Rule = "(A) directory shapes x failing statement at every position x tx-mode {file, all, none} x files applied by an earlier `apply N` x txmode directives x count argument, real binary on SQLite: operation trace == Lean plan, final dump == model, independent oracles (all: dump before; file: clean run of the directory truncated before the failing file; none: successful prefix + error revision), then fix + re-hash + re-run == dump of a never-failing run; (B) --dry-run on fresh/initialised databases with/without --baseline: full dump unchanged; (C) schema apply plans failing midway (several changes, or ONE change that expands to several statements): dump unchanged, --dry-run unchanged; (D) two failures in one file (fail at i, fix, resumed run fails at j > i, fix, third run) in none and file mode: third run succeeds and equals a never-failing run; non-trivial = a statement fails after at least one succeeded; distinct by case"
 	var mu sync.Mutex
 	viol := func(kind, sig, what, check string, rep any) {
 		mu.Lock()
@@ -142,6 +142,7 @@ func runC13(e *Env) error {
 	})
 	c13DryRun(e, pool, viol, &mu)
 	c13Schema(e, pool, viol, &mu)
+	c13TwoFailures(e, viol, &mu)
 	e.Res.Note("atlas processes run: %d", cliRuns.Load())
 	return nil
 }
@@ -474,6 +475,17 @@ func c13Scenarios(e *Env) []schemaScenario {
 			"CREATE TABLE gone (id integer NOT NULL)", "INSERT INTO gone VALUES (3)"},
 			"CREATE TABLE a (id integer NOT NULL, v text NOT NULL);\nCREATE TABLE fresh (id integer NOT NULL);\n", true},
 	}
+	// ONE change whose plan has several statements and fails after the first one
+	base = append(base,
+		schemaScenario{"single-change-add-column-then-unique-index-on-duplicates", []string{
+			"CREATE TABLE t (a integer NOT NULL, b integer NULL)", "INSERT INTO t VALUES (1,1),(1,2)"},
+			"CREATE TABLE t (a integer NOT NULL, b integer NULL, c text NULL);\nCREATE UNIQUE INDEX t_a ON t (a);\n", true},
+		schemaScenario{"single-change-rebuild-not-null-with-null-rows", []string{
+			"CREATE TABLE a (id integer NOT NULL, v text NULL)", "INSERT INTO a VALUES (1,NULL),(2,'x')", "CREATE INDEX a_v ON a (v)"},
+			"CREATE TABLE a (id integer NOT NULL, v text NOT NULL);\nCREATE INDEX a_v ON a (v);\n", true},
+		schemaScenario{"single-change-two-indexes-second-unique-on-duplicates", []string{
+			"CREATE TABLE t (a integer NOT NULL, b integer NULL)", "INSERT INTO t VALUES (1,1),(1,2)"},
+			"CREATE TABLE t (a integer NOT NULL, b integer NULL);\nCREATE INDEX t_b ON t (b);\nCREATE UNIQUE INDEX t_a ON t (a);\n", true})
 	return base
 }
 
@@ -567,6 +579,91 @@ func c13Schema(e *Env, pool *hx.Pool, viol func(kind, sig, what, check string, r
 					viol("no-failing-input-found", "corr-schema-apply-tx-shape", fmt.Sprintf("schema apply (%s): trace has %d BEGIN %d COMMIT %d ROLLBACK, model %d/%d/%d", r.s.Name, nb, nc, nr, mb, mc, mr), "correspondence Atlas.Tx.schemaApply", rep)
 				}
 			}
+		}
+	})
+}
+
+// (D) two failures in one file: the file fails at statement i and is fixed there, the resumed run
+// makes progress and fails at a later statement j, which is fixed too; the third run must complete
+// and reach the state of a run that never failed (none mode keeps partial progress and its statement
+// checksums across both failures; file mode rolls back each time).
+func c13TwoFailures(e *Env, viol func(kind, sig, what, check string, rep any), mu *sync.Mutex) {
+	type tf struct {
+		mode   string
+		n      int
+		i, j   int
+		second bool
+	}
+	var cs []tf
+	for _, mode := range []string{"none", "file"} {
+		cs = append(cs, tf{mode, 4, 1, 3, false}, tf{mode, 4, 2, 3, true}, tf{mode, 5, 1, 3, true})
+		if e.Thorough() {
+			cs = append(cs, tf{mode, 3, 1, 2, false}, tf{mode, 5, 2, 4, false}, tf{mode, 6, 1, 2, true}, tf{mode, 6, 3, 5, true})
+		}
+	}
+	parallel(e.Workers, len(cs), func(k int) {
+		x := cs[k]
+		mkCase := func(bad ...int) *txCase {
+			c := &txCase{Mode: x.mode}
+			ok := make([]bool, x.n)
+			for i := range ok {
+				ok[i] = true
+			}
+			for _, b := range bad {
+				ok[b] = false
+			}
+			c.Files = append(c.Files, txFile{Ok: ok})
+			if x.second {
+				c.Files = append(c.Files, txFile{Ok: []bool{true, true}})
+			}
+			return c
+		}
+		c1, c2, c3 := mkCase(x.i, x.j), mkCase(x.j), mkCase()
+		name := fmt.Sprintf("c13-two-%d", k)
+		dir, err := c1.setup(e.Work, name)
+		if err != nil {
+			return
+		}
+		defer os.RemoveAll(dir)
+		db := c1.fresh(dir, "db.sqlite")
+		dbp := filepath.Join(dir, db)
+		rep := map[string]any{"mode": x.mode, "statements": x.n, "first_failure": x.i, "second_failure": x.j, "second_file": x.second}
+		mu.Lock()
+		e.Res.Count(name, true, "two-failures", "mode:"+x.mode)
+		mu.Unlock()
+		desc := fmt.Sprintf("--tx-mode %s, file of %d statements: fails at %d, fixed, resumed run fails at %d, fixed", x.mode, x.n, x.i, x.j)
+		o1 := runAtlas(e, dir, nil, c1.args(db)...)
+		if o1.Code == 0 {
+			viol("failing-input", "failure-not-reported", desc+": first run exits 0", "Props.C13 failure reported", rep)
+			return
+		}
+		writeMigrationDir(filepath.Join(dir, "m"), c2.dirFiles(false))
+		o2 := runAtlas(e, dir, nil, c2.args(db)...)
+		if o2.Code == 0 {
+			viol("failing-input", "failure-not-reported", desc+": second run exits 0", "Props.C13 failure reported", rep)
+			return
+		}
+		if strings.Contains(o2.Stderr+o2.Stdout, "history") {
+			viol("failing-input", "rerun-after-fix-fails", fmt.Sprintf("%s: the run after the first fix is refused: %s", desc, trunc(o2.Stderr+o2.Stdout, 300)), "Props.C13.fix_and_rerun", rep)
+			return
+		}
+		writeMigrationDir(filepath.Join(dir, "m"), c3.dirFiles(false))
+		o3 := runAtlas(e, dir, nil, c3.args(db)...)
+		s3 := dumpDB(dbp)
+		if o3.Code != 0 {
+			viol("failing-input", "rerun-after-fix-fails", fmt.Sprintf("%s: the third run fails although only statements that never ran were edited: %s", desc, trunc(o3.Stderr+o3.Stdout, 400)), "Props.C13.fix_and_rerun", rep)
+			return
+		}
+		odir := filepath.Join(dir, "oracle")
+		os.MkdirAll(odir, 0o755)
+		writeMigrationDir(filepath.Join(odir, "m"), c3.dirFiles(false))
+		if oo := runAtlas(e, odir, nil, c3.args("db.sqlite")...); oo.Code != 0 {
+			viol("no-failing-input-found", "oracle-run-fails", trunc(oo.Stderr, 300), "harness oracle", rep)
+			return
+		}
+		so := dumpDB(filepath.Join(odir, "db.sqlite"))
+		if s3.canon(true) != so.canon(true) {
+			viol("failing-input", "fix-and-rerun-differs", fmt.Sprintf("%s: the third run gives\n%s\na run without failure gives\n%s", desc, trunc(s3.canon(true), 700), trunc(so.canon(true), 700)), "Props.C13.fix_and_rerun", rep)
 		}
 	})
 }
